@@ -35,19 +35,26 @@ def append_node(parent, node):
     parent.append(node)
 
 
+# default for the *id* argument of find_child: "no ID given, any child will do"
+_ANY = object()
+
+
 def find_child(
         parent: Element,
         child_tag: str,
-        id: Optional[str] = None
+        id: Optional[str] = _ANY
     ) -> Tuple[Optional[Element], Optional[int]]:
     """
     Find an element with *child_tag* in *parent* and return ``(child, index)``
     or ``(None, None)`` if not found. If *id* is provided, it will be searched
-    for, otherwise the first child will be returned.
+    for (a blank ID, ``None``, matches nothing), otherwise the first child will
+    be returned.
     """
+    if id is None:
+        return (None, None)
     for i, child in enumerate(parent):
         if child.tag == child_tag:
-            if id is None:
+            if id is _ANY:
                 return (child, i)
             child_id = child.find(f'{child_tag}ID').text
             if child_id == id:
